@@ -236,6 +236,7 @@ func ruleR15(c *Ctx) *RuleResult {
 					return false
 				}})
 			}
+			gc = indexOfWalkForm(p, gc)
 			if os.Getenv("R15_DEBUG") != "" && name == "Remove" {
 				for _, x := range gc.Strings() {
 					fmt.Fprintln(os.Stderr, "  R15 GC:", trunc(x, 400))
